@@ -6,7 +6,8 @@ Model of pfst's expression <-> pattern coercion (src/fst/code.py): `_coerce_to_p
 The functions mirror the Python case by case AS WRITTEN (explicit `Starred` refusals, the `MatchOr` flattening of a left
 operand, the wildcard `_`, `**rest` handling, `MatchValue` keys of a `Dict`, ...).  The Python functions return either an
 error string or a node; the model returns `none` for every refusal (including the one place where the real code raises
-`AttributeError`: a `BinOp |` used as a `Dict` key).
+`AttributeError`: a `BinOp |` used as a `Dict` key).  The model describes the tree with the C19 repairs applied
+(Ellipsis `Dict` key refused; left operand of `|` coerced before the right one).
 
 `fmt` is Python's `is_FST`: the node carries source.  Structure depends on it in exactly two places, both modelled:
 * `_coerce_to_pattern_ast_BinOp`: a left `MatchOr` is NOT flattened when the left operand is parenthesised in source
@@ -144,6 +145,11 @@ def Expr.isConst : Expr → Bool
   | .const _ => true
   | _ => false
 
+/-- `key.value is ...`: refused as a mapping key ('key cannot be Ellipsis') -/
+def Expr.isEllipsis : Expr → Bool
+  | .const .ellipsis => true
+  | _ => false
+
 /-- `key.__class__ in (UnaryOp, BinOp, Attribute)`: walked through their coercion function -/
 def Expr.isKeyWalk : Expr → Bool
   | .unop _ _ => true
@@ -190,15 +196,15 @@ def toPattern (fmt : Bool) : Expr → Option Pattern
     match op with
     | .add => if complexOk l r then some (.value (.binop l op r lpar)) else none
     | .sub => if complexOk l r then some (.value (.binop l op r lpar)) else none
-    | .bitor =>
-      if r.isStarred then none else
-      match toPattern fmt r with
+    | .bitor =>                                                   -- left operand first, then the right one
+      if l.isStarred then none else
+      match toPattern fmt l with
       | none => none
-      | some pr =>
-        if l.isStarred then none else
-        match toPattern fmt l with
+      | some pl =>
+        if r.isStarred then none else
+        match toPattern fmt r with
         | none => none
-        | some pl =>
+        | some pr =>
           match pl with
           | .or_ ps => if fmt && lpar then some (.or_ [pl, pr]) else some (.or_ (ps ++ [pr]))
           | _ => some (.or_ [pl, pr])
@@ -272,7 +278,8 @@ def dictGo (fmt : Bool) : List Expr → Bool → Option (List Pattern × Option 
     | _ => none
   | .kv k v :: tl, seenRest =>
     if seenRest then none else                                    -- "values cannot follow '**' key"
-    match (if k.isConst then some k else if k.isKeyWalk then valueOf (toPattern fmt k) else none) with
+    match (if k.isConst then (if k.isEllipsis then none else some k)
+           else if k.isKeyWalk then valueOf (toPattern fmt k) else none) with
     | none => none
     | some k' =>
       match toPattern fmt v with
